@@ -67,6 +67,27 @@ Theorem C04_arithmetic_src :
 Proof. exact arithmetic_src. Qed.
 Print Assumptions C04_arithmetic_src.
 
+(* (a') the other line-carrying methods of the mocks, through the regenerated expressions: MockState.block_quote
+   (epigraph / pull-quote / highlights) hands the body offset on unchanged, so the body is rendered exactly like an
+   admonition's; an attribution found on body index i gets its true line position + 1 + offset + i, for the node and for
+   the warnings of its text; MockStateMachine.get_source_and_line; MockState.parse_directive_block. *)
+Theorem C04_mock_methods_src :
+  (forall position off, block_quote_lineno position off = (position + off)%Z) /\
+  (forall position off i, (0 <= i)%Z -> attribution_node_line position off i = (position + 1 + off + i)%Z) /\
+  (forall position off i, (0 <= i)%Z -> attribution_text_line position off i = (position + 1 + off + i)%Z) /\
+  (forall lineno position, (0 < lineno)%Z -> source_line (Some lineno) position = lineno) /\
+  (forall position, source_line None position = position) /\
+  (forall lo bo, directive_block_offset lo bo = (lo + bo)%Z).
+Proof. exact mock_methods_src. Qed.
+Print Assumptions C04_mock_methods_src.
+
+(* Open finding line:directive-title:+1, characterised exactly: docutils directives pass the 1-based line of a title to
+   state.inline_text(title, self.lineno); MockInliner.parse hands it to nested_render_text as a 0-based offset, so every
+   warning / node from the inline text of a title on line [position] carries position + 1. *)
+Theorem C04_directive_title_offset : forall position, title_text_line position = (position + 1)%Z.
+Proof. exact title_text_line_eq. Qed.
+Print Assumptions C04_directive_title_offset.
+
 (* (b) the directive splitter the line model runs is the one regenerated from parsers/directives.py (Gen/DirSrc.v) *)
 Theorem C04_splitter_src :
   forall tokenize yaml_load sg first_line content line validate additional,
